@@ -7,7 +7,8 @@ git -C /repo worktree add -q --detach $wt HEAD || exit 2
 ( cd $wt && git apply $d/patch.diff ) || { echo "PATCH DOES NOT APPLY"; git -C /repo worktree remove --force $wt; exit 2; }
 cd /verif
 for id in "$@"; do
-  LENTIL_REPO=$wt VERIF_NO_EVIDENCE=1 ./check $id --tier quick > /tmp/seeded_run_$id.log 2>&1; rc=$?
-  echo "check $id rc=$rc violations=$(grep -c '^VIOLATION' /tmp/seeded_run_$id.log)"; grep 'sig=' /tmp/seeded_run_$id.log | sort | uniq -c | sort -rn | head -4
+  LENTIL_REPO=$wt VERIF_NO_EVIDENCE=1 ./check $id --tier quick > /tmp/seeded_run_$$_$id.log 2>&1; rc=$?
+  echo "check $id rc=$rc violations=$(grep -c '^VIOLATION' /tmp/seeded_run_$$_$id.log)"; grep 'sig=' /tmp/seeded_run_$$_$id.log | sort | uniq -c | sort -rn | head -4
 done
+rm -f /tmp/seeded_run_$$_*.log
 git -C /repo worktree remove --force $wt
